@@ -224,3 +224,18 @@ package dialer
 //@   pure
 //@   trusted
 //@   ensures result != nil
+
+// C14 (annotation of a filter line): every entry must be a well-formed add_latency (anything else is an
+// error, never silently skipped); the offset is the first non-zero latency of the list.
+//@ func NewAnnotation
+//@   nonilcheck
+//@   let lat(k int) = nth(time.ParseDuration(annotation[k].Val), 0)
+//@   let okEnt(k int) = annotation[k].Key == AnnotationKey_AddLatency && nth(time.ParseDuration(annotation[k].Val), 1) == nil
+//@   ensures result1 == nil ==> result0 != nil && (forall k int {annotation[k]} :: 0 <= k && k < len(annotation) ==> okEnt(k))
+//@   ensures result1 == nil && result0.AddLatency != 0 ==> (exists k int {annotation[k]} :: 0 <= k && k < len(annotation) && lat(k) == result0.AddLatency && (forall q int {annotation[q]} :: 0 <= q && q < k ==> lat(q) == 0))
+//@   ensures result1 == nil && result0.AddLatency == 0 ==> (forall k int {annotation[k]} :: 0 <= k && k < len(annotation) ==> lat(k) == 0)
+//@   ensures result1 != nil ==> result0 == nil && (exists k int {annotation[k]} :: 0 <= k && k < len(annotation) && !okEnt(k))
+//@   loop 1
+//@     invariant forall k int {annotation[k]} :: 0 <= k && k < $idx ==> okEnt(k)
+//@     invariant anno.AddLatency != 0 ==> (exists k int {annotation[k]} :: 0 <= k && k < $idx && lat(k) == anno.AddLatency && (forall q int {annotation[q]} :: 0 <= q && q < k ==> lat(q) == 0))
+//@     invariant anno.AddLatency == 0 ==> (forall k int {annotation[k]} :: 0 <= k && k < $idx ==> lat(k) == 0)
